@@ -1,0 +1,63 @@
+//go:build verif
+
+package main
+
+import (
+	"encoding/json"
+	"fmt"
+	"io"
+	"os"
+	"path/filepath"
+	"sort"
+	"testing"
+
+	log "github.com/sirupsen/logrus"
+)
+
+type verifExit struct{ code int }
+
+// TestVerifStartupGate drives the real start-up gate (setupNodeGroups) over every *.cfg file in
+// $VERIF_GATE_DIR and reports, one JSON line per file, whether escalator refused to start. It also
+// prints the provider configuration setupCloudProvider derives from map.cfg, so that a harness that
+// restates that mapping can be compared with it. Skipped unless VERIF_GATE_DIR is set.
+func TestVerifStartupGate(t *testing.T) {
+	dir := os.Getenv("VERIF_GATE_DIR")
+	if dir == "" {
+		t.Skip("VERIF_GATE_DIR not set")
+	}
+	files, _ := filepath.Glob(filepath.Join(dir, "*.cfg"))
+	sort.Strings(files)
+	log.SetOutput(io.Discard)
+	old := log.StandardLogger().ExitFunc
+	log.StandardLogger().ExitFunc = func(code int) { panic(verifExit{code}) }
+	defer func() { log.StandardLogger().ExitFunc = old }()
+
+	for _, f := range files {
+		refused, groups, msg := false, 0, ""
+		func() {
+			defer func() {
+				if r := recover(); r != nil {
+					if _, ok := r.(verifExit); ok {
+						refused, msg = true, "exit requested"
+						return
+					}
+					panic(r)
+				}
+			}()
+			*nodegroupConfigFile = f
+			ngs, err := setupNodeGroups()
+			if err != nil {
+				refused, msg = true, err.Error()
+				return
+			}
+			groups = len(ngs)
+			if filepath.Base(f) == "map.cfg" {
+				b := setupCloudProvider(ngs).(cloudProviderBuilder)
+				out, _ := json.Marshal(b.ProviderOpts.NodeGroupConfigs)
+				fmt.Printf("VERIF-MAP %s\n", out)
+			}
+		}()
+		out, _ := json.Marshal(map[string]interface{}{"file": filepath.Base(f), "refused": refused, "groups": groups, "msg": msg})
+		fmt.Printf("VERIF-GATE %s\n", out)
+	}
+}
